@@ -145,6 +145,8 @@ func c05Special(rng *core.Rand, k int) []c05Input {
 		b.WriteString("package_info _ =\n  type Loc\n  let mkLoc: int->Loc\n  let useLoc<T>: Loc->T->T\n\n")
 		b.WriteString("package_info _ =\n  type Loc\n  let useLoc<T>: Loc->T->T\n  let mkLoc: int->Loc\n  let lateLoc: Loc->int\n  let otherLoc: int->int\n\n")
 		b.WriteString("let d () =\n  otherLoc (lateLoc (mkLoc 4))\n\n")
+		// the external types named by their full names in annotations (each name must keep its own type)
+		fmt.Fprintf(&b, "let ann (t:ext.T0) (u:ext.T1) (l:ext.Late) =\n  ext.X0 t\n\nlet ann2 (u:ext.T%d) (ts:[]ext.T1) =\n  u\n\n", nt-1)
 		b.WriteString("let a () =\n  ext.X0 (ext.F0 1)\n\n")
 		b.WriteString("let b () =\n  ext.H 1 (ext.G \"s\")\n\n")
 		b.WriteString("let c () =\n  useLoc (mkLoc 3) (ext.MkLate ())\n")
